@@ -126,7 +126,7 @@ func c11(env *Env, rep *Report) {
 		"connections are unbounded in-memory pipes (no write ever blocks)")
 	bound := 1
 	if env.thorough() {
-		bound = 2
+		bound = 3
 	}
 	rep.Bounds = map[string]any{"preemption_bound": bound, "scenarios": len(scs)}
 	if env.Replay != nil {
